@@ -6,7 +6,10 @@ HERE = os.path.dirname(os.path.dirname(os.path.abspath(__file__)))
 POST_HOC = {'C02-a': 'C02.FRAME reformulated (first version fired for the wrong reason)', 'C03-a': 'C03.PTSWIDTH', 'C04-a': 'C04.CVRESET', 'C15-a': 'C15.COUNT',
             'C16-a': 'C16.UNDEF', 'C24-a': 'C24.GRID', 'C23-a': 'C23.RELEASE/disarm', 'C25-a': 'C25.GROW', 'C21-a': 'C21.PADFIRST overlay', 'C20-a': 'C20.TILESYM',
             'C05-a': 'C05 implemented after the seed arrived (rule as designed beforehand)', 'C23-b': 'C23.WAKE', 'C16-b': 'C16.PUBLISHED', 'C14-b': 'C14.5-NBQUIT',
-            'C04-b': 'C04.TESTSET', 'C15-b': 'C15.SHUT/unconditional', 'C02-b': 'C02.PICTYPE'}
+            'C04-b': 'C04.TESTSET', 'C15-b': 'C15.SHUT/unconditional', 'C02-b': 'C02.PICTYPE',
+            'C10-b': 'C10.REINIT', 'C18-b': 'C18.PLUMB', 'C22-b': 'C22 cursor obligations (first flagged for the wrong reason; corrected)', 'C12-b': 'C12.COPY', 'C09-b': 'C09.ONCE',
+            'C03-b': 'C03.EOS link 2b', 'C17-b': 'C17.ESCAPE', 'C24-b': 'C24.UNITS', 'C24-c': 'C24.REARM', 'C26-a': 'C26.AXIS (the rest of C26 existed before the seed)',
+            'C27-a': 'C27.RECONEOS / C03.EOS link 5'}
 rows = []
 for f in sorted(glob.glob(os.path.join(HERE, 'seeded', '*', 'meta.json'))):
     m = json.load(open(f)); sid = os.path.basename(os.path.dirname(f))
